@@ -20,7 +20,7 @@ STUBS = []
 
 
 def xh_conditions(tier):
-    t = 120 if tier == "quick" else 480
+    t = 240 if tier == "quick" else 480
     names = [f"_add_keeps_argument_k{k}_{w}" for k in range(4) for w in ("plain", "anc")] + ["_later_edits_keep_parent", "_rej_bs_modes", "_rej_bs_values", "_rej_ps_loss", "_rej_swaps_pair", "_rej_swaps_incomplete", "_rej_barrier", "_rej_herald_first", "_rej_herald_second", "_rej_add", "_copy_is_independent", "_sum_keeps_operands"]
     if tier != "quick":
         names.append("_emulators_keep_circuit")
